@@ -1402,4 +1402,4 @@ def rule_q(repo, chk):
 
 
 RULES = [('C01.a', rule_a), ('C01.b', rule_b), ('C01.c', rule_c), ('C01.d', rule_d), ('C01.e', rule_e), ('C01.f', rule_f),
-         ('C01.g', rule_g), ('C01.h', rule_h), ('C01.i', rule_i), ('C01.j', rule_j), ('C01.k', rule_k), ('C01.l', rule_l), ('C01.m', rule_m), ('C01.n', rule_n), ('C01.o', rule_o), ('C01.p', rule_p)]
+         ('C01.g', rule_g), ('C01.h', rule_h), ('C01.i', rule_i), ('C01.j', rule_j), ('C01.k', rule_k), ('C01.l', rule_l), ('C01.m', rule_m), ('C01.n', rule_n), ('C01.o', rule_o), ('C01.p', rule_p), ('C01.q', rule_q)]
